@@ -10,8 +10,8 @@ from . import common, tools
 
 ID = "C17"
 LEVEL = "exploration"
-BUDGET = {"quick": 960, "thorough": 19200}
-WALL_CAP = {"quick": 420, "thorough": 3300}
+BUDGET = {"quick": 24000, "thorough": 480000}
+WALL_CAP = {"quick": 600, "thorough": 5400}
 RULE = ("case = synthetic PeleLMeX checkpoint in the format of test_assets/example_chk_3d (1..3 levels, anisotropic "
         "domain/cells, non-zero origin, 1..3 ghost cells on the state, 1..4 species, boxes of state/gradp/I_R/divU/p "
         "spread over several files with independent, possibly non-monotone layouts per subset, integer-valued and "
